@@ -65,13 +65,21 @@ def sched_of(t):
 
 
 def replay(ctx, behaviours, mode="deletion", depth=2, batch=1, chunk=60):
-    """Gated replay; returns list of (behaviour, mismatches)."""
+    """Gated replay; returns list of (behaviour, mismatches, case).  If a whole first chunk of schedules is infeasible on
+    the real code the rest is not replayed (each infeasible schedule costs a settle timeout) and is reported as diverged."""
     out = []
-    for i in range(0, len(behaviours), chunk):
-        part = behaviours[i:i + chunk]
+    first = 6
+    for i in ([0] + list(range(first, len(behaviours), chunk))):
+        part = behaviours[i:i + (first if i == 0 else chunk)]
+        if not part:
+            continue
         res = ctx.run_vh(["srv-replay"], dict(mode=mode, depth=depth, batch=batch, hookKeys=hook_keys(), behaviours=part), timeout=3000)
         if len(res) != len(part):
             raise Infra("srv-replay returned %d results for %d behaviours" % (len(res), len(part)))
         for b, x in zip(part, res):
             out.append((b, x.get("observed") or [], x.get("case")))
+        if i == 0 and all(any(m["kind"] in ("waiting", "listener") for m in mm) for _, mm, _ in out):
+            for b in behaviours[first:]:
+                out.append((b, [dict(kind="waiting", step=-1, detail="not replayed: the first %d schedules were all infeasible" % first)], None))
+            break
     return out
